@@ -366,6 +366,10 @@ def run_check(pid: str, tier: str, verif_seed: int, *, runs: Optional[int] = Non
                     break
                 submit_more()
         results.sort(key=lambda r: r["idx"])
+        if os.environ.get("ZSIM_DUMP_DIGESTS"):
+            with open(os.environ["ZSIM_DUMP_DIGESTS"], "w") as f:
+                for r in results:
+                    f.write(f"{r['idx']} {r.get('digest')}\n")
         for r in results:
             if r.get("harness_error"):
                 harness_errors.append(f"run {r['idx']} seed {r['seed']}: {r['harness_error']}")
